@@ -58,9 +58,22 @@ class BuildLock:
         self.f.close()
 
 
+def _big_stack():
+    """coqc parses multi-megabyte case literals recursively: lift the stack limit for the children"""
+    import resource
+    try:
+        resource.setrlimit(resource.RLIMIT_STACK, (resource.RLIM_INFINITY, resource.RLIM_INFINITY))
+    except (ValueError, OSError):
+        try:
+            soft, hard = resource.getrlimit(resource.RLIMIT_STACK)
+            resource.setrlimit(resource.RLIMIT_STACK, (hard, hard))
+        except (ValueError, OSError):
+            pass
+
+
 def _sh(cmd, cwd, timeout):
     try:
-        p = subprocess.run(cmd, cwd=cwd, shell=isinstance(cmd, str), timeout=timeout,
+        p = subprocess.run(cmd, cwd=cwd, shell=isinstance(cmd, str), timeout=timeout, preexec_fn=_big_stack,
                            stdout=subprocess.PIPE, stderr=subprocess.STDOUT, text=True)
         return p.returncode, p.stdout
     except subprocess.TimeoutExpired as e:
@@ -196,7 +209,17 @@ def coq_run_cases(tag, imports, func, intype, cases, shard=300, preamble=""):
     if berr:
         return [], berr
     tag = "%s_p%d" % (tag, os.getpid())          # concurrent checks (other trees, other tiers) must not share files
-    shards = [cases[i:i + shard] for i in range(0, len(cases), shard)]
+    # at most `shard` cases and about 700 kB of text per generated file
+    shards, cur, size = [], [], 0
+    for a, e in cases:
+        n = len(a) + 6 * len(e)
+        if cur and (len(cur) >= shard or size + n > 700000):
+            shards.append(cur)
+            cur, size = [], 0
+        cur.append((a, e))
+        size += n
+    if cur:
+        shards.append(cur)
     names = []
     for k, sh in enumerate(shards):
         name = "cases_%s_%d" % (tag, k)
@@ -215,6 +238,9 @@ def coq_run_cases(tag, imports, func, intype, cases, shard=300, preamble=""):
     with ThreadPoolExecutor(max_workers=NPROC) as ex:
         outs = list(ex.map(one, names))
     mism, errors = [], []
+    offsets, bad_shards = [0], set()
+    for sh in shards:
+        offsets.append(offsets[-1] + len(sh))
     for k, (rc, out) in enumerate(outs):
         if rc != 0:
             errors.append("shard %d: coqc failed: %s" % (k, out[-2000:]))
@@ -224,8 +250,8 @@ def coq_run_cases(tag, imports, func, intype, cases, shard=300, preamble=""):
             errors.append("shard %d: unparsable output: %s" % (k, out[-1000:]))
             continue
         for idx, vals in r:
-            mism.append((k * shard + idx, vals))
-    bad_shards = {idx // shard for idx, _ in mism}
+            mism.append((offsets[k] + idx, vals))
+            bad_shards.add(k)
     for k, name in enumerate(names):   # keep the sources of disagreeing shards only
         exts = [".vo", ".vos", ".vok", ".glob", ".aux"] + ([] if (k in bad_shards or outs[k][0] != 0) else [".v"])
         for ext in exts:
